@@ -385,7 +385,9 @@ def _rust_prepared(img, ins, busy):
     if busy not in _RS_SNAP:
         hooks = {"verif_in": lambda m, i: ins.get(i, 0), "verif_out": lambda m, i, v: None, "verif_load": lambda m, a: 0, "verif_store": lambda m, a, v: None}
         m = interp.Machine(img, hooks)
+        m.array_mode = True
         m.STEP_LIMIT = 40_000_000
+        m.merge_tables = True
         m.run(img.mod.functions["harness_lcd_prepare"], [])
         # the two 512-byte VRAM blocks now hold Select(vramN, k) byte by byte: find them and switch them to array mode
         # over vramN itself, so that symbolic page/column accesses are single array reads instead of 512-way merges
@@ -451,7 +453,9 @@ def run_rust_case(item):
         hooks = {"verif_in": lambda m, i: ins.get(i, 0), "verif_out": lambda m, i, v: out.__setitem__(i, v),
                  "verif_load": lambda m, a: 0, "verif_store": lambda m, a, v: None}
         m = interp.Machine(img, hooks)
+        m.array_mode = True
         m.STEP_LIMIT = 40_000_000
+        m.merge_tables = True
         m.resume(snap)
         m.run(img.mod.functions[entry], [])
         post = {nm: m.load_bytes(a, 1) for nm, a in fields.items()}
